@@ -459,3 +459,54 @@ Example timeout_above_clock_release_misjudges :
                                     (mkSnap (FSize 4096) 16 1792 2500, 2500); (mkSnap (FSize 4096) 16 1792 2500, 3501)]
   = (KOk, 4%Z).
 Proof. vm_compute. reflexivity. Qed.
+
+(* a driver that is alive when the client arrives is found at the first attempt: two clock calls, six observations *)
+Theorem connect_alive_at_once m T e lo fuel :
+  arith_ok e T -> env_wf e lo ->
+  (forall j, usable (e_snap e 1%nat j) /\ s_hb (e_snap e 1%nat j) <> 0) ->
+  (wrapu64 (s_hb (e_snap e 2%nat 0%nat)) <? e_clock e 1%nat - T) = false ->
+  (6 <= fuel)%nat ->
+  exists n v h1 t h2, connect fuel m T e = (ROk n v h1 t h2, 2%nat).
+Proof.
+  intros Ha (Hlo1 & Hlo2 & Hw) Hu Hfresh Hf.
+  do 6 (destruct fuel as [|fuel]; [lia |]).
+  unfold connect, init.
+  (* PSize *)
+  destruct (Hu 0%nat) as (((n0 & Hn0 & Hn0z) & Hv0 & Hvo0) & _).
+  pose proof (Hw 1%nat 0%nat (le_n _)) as (Hf0 & _). cbn zeta in Hf0. destruct (Hf0 _ Hn0) as [|Hr0]; [congruence |].
+  cbn [run]. unfold step at 1. cbn [st_pc]. unfold obs. cbn [st_k st_j]. rewrite Hn0.
+  assert ((n0 =? 0) = false) as -> by lia. unfold seen at 1. cbn [st_k st_j].
+  (* PMap *)
+  destruct (Hu 1%nat) as (((n1 & Hn1 & Hn1z) & _) & _).
+  pose proof (Hw 1%nat 1%nat (le_n _)) as (Hf1 & _). cbn zeta in Hf1. destruct (Hf1 _ Hn1) as [|Hr1]; [congruence |].
+  cbn [run]. unfold step at 1. cbn [st_pc]. unfold obs. cbn [st_k st_j]. rewrite Hn1.
+  assert ((n1 =? 0) = false) as -> by lia. unfold seen at 1. cbn [st_k st_j].
+  rewrite wrap32_id by (unfold in_i32, two31 in *; lia).
+  (* PVer *)
+  destruct (Hu 2%nat) as ((_ & Hv2 & Hvo2) & _).
+  cbn [run]. unfold step at 1. cbn [st_pc]. unfold obs. cbn [st_k st_j].
+  assert ((n1 <? 4) = false) as -> by lia.
+  assert ((s_ver (e_snap e 1%nat 2%nat) =? 0) = false) as -> by lia. rewrite Hvo2.
+  unfold seen at 1. cbn [st_k st_j].
+  (* PMeta *)
+  pose proof (Hw 1%nat 3%nat (le_n _)) as (_ & Hti & Htp & Htl). cbn zeta in Hti, Htp, Htl.
+  pose proof (is_pow2_pos _ Htp) as Hpos.
+  cbn [run]. unfold step at 1. cbn [st_pc]. unfold obs. cbn [st_k st_j].
+  assert ((n1 <? META_FIELDS) = false) as -> by lia.
+  unfold sub32, chk32.
+  assert (in_i32 (s_tdlen (e_snap e 1%nat 3%nat) - RB_TRAILER_LENGTH) = true) as ->
+    by (unfold in_i32, TRAILER, RB_TRAILER_LENGTH, two31 in *; lia).
+  unfold TRAILER in Htp. rewrite Htp.
+  assert ((META + (s_tdlen (e_snap e 1%nat 3%nat) - RB_TRAILER_LENGTH) + RB_CONSUMER_HEARTBEAT_OFFSET + 8 <=? n1) = true) as ->
+    by (unfold RB_TRAILER_LENGTH, RB_CONSUMER_HEARTBEAT_OFFSET in *; lia).
+  unfold seen at 1. cbn [st_k st_j].
+  (* PHb *)
+  destruct (Hu 4%nat) as (_ & Hh4).
+  cbn [run]. unfold step at 1. cbn [st_pc]. unfold obs. cbn [st_k st_j].
+  assert ((s_hb (e_snap e 1%nat 4%nat) =? 0) = false) as -> by lia.
+  unfold seen at 1. cbn [st_k st_j].
+  (* PJudge *)
+  cbn [run]. unfold step at 1. cbn [st_pc st_k]. unfold ticked, obs. cbn [st_k st_j].
+  rewrite stale_at_ok by assumption. rewrite Hfresh. unfold stop. cbn [st_k].
+  do 5 eexists. reflexivity.
+Qed.
